@@ -1,5 +1,6 @@
 import PyTrie.Lemmas.MissingProofs
 import PyTrie.Lemmas.MissingPath
+import PyTrie.Lemmas.RawPartial
 /-! # C07 — missing nodes: operations fail atomically and report the truth
 
 `opGet`, `opTraverse`, `opSetDel` are `get`, `traverse`/`traverse_from`, `set`/`delete` over a store
@@ -106,5 +107,48 @@ theorem set_delete_retry_progress (Hs : Hashing) (blankRootHash : Hash) (T : Tri
     (∀ root' rk' pre', (opSetDel Hs blankRootHash T key val s').2 ≠ .error (.missingTrieNode h root' rk' pre')) ∧
     (h = T.root ∨ (outstandingOp Hs T key val s'.store).length < (outstandingOp Hs T key val s.store).length) :=
   opSetDel_retry_progress Hs blankRootHash T key val s h root rk pre body he
+
+end PyTrie.Props.C07
+
+/-! ## Raw level: `_set` / `_delete` as written, on incomplete databases
+
+`Model/HexRaw.lean` is the statement-by-statement transcription of the write path over raw nodes and a database of rlp
+bytes (run against the code, also with node bodies removed). `PartialD H db t`: whatever the database holds under the hash
+of a hashed subtree of `t` is its encoding. The theorems: the raw-level functions find every node they fetch and then
+return exactly what they return on the complete database, or stop at the **first** fetch the database cannot answer; a
+reported hash is absent and lies on the requested path (for delete: or is the sibling a normalisation reads). -/
+namespace PyTrie.Props.C07
+open PyTrie PyTrie.Hex PyTrie.HexD PyTrie.HexRaw
+open PyTrie.HexW (OnPath SiblingOnPath)
+
+theorem raw_set_partial (H : Bytes → Bytes) (hlen : ∀ b, (H b).length = 32) (t : Node) (hc : Canon t) (k : Path) (v : Bytes)
+    (st : HexRaw.St) (hst : PartialD H st.db t) (fuel : Nat) (hf : 2 * k.length + 2 ≤ fuel) :
+    rawSet H fuel st (toItem H t) k v =
+      match firstMissing st.db (setE (stdHashing H) t k v).2 with
+      | some h => .error (.missing h)
+      | none => .ok (toItem H (setE (stdHashing H) t k v).1,
+          { db := applyPersists st.db (setE (stdHashing H) t k v).2, evs := st.evs ++ (setE (stdHashing H) t k v).2 }) :=
+  rawSet_partial H hlen t hc k v st hst fuel hf
+
+theorem raw_delete_partial (H : Bytes → Bytes) (hlen : ∀ b, (H b).length = 32) (t : Node) (hc : Canon t) (k : Path)
+    (st : HexRaw.St) (hst : PartialD H st.db t) (fuel : Nat) (hf : 2 * k.length + 2 ≤ fuel) :
+    rawDelete H fuel st (toItem H t) k =
+      match firstMissing st.db (deleteE (stdHashing H) t k).2 with
+      | some h => .error (.missing h)
+      | none => .ok (toItem H (deleteE (stdHashing H) t k).1,
+          { db := applyPersists st.db (deleteE (stdHashing H) t k).2, evs := st.evs ++ (deleteE (stdHashing H) t k).2 }) :=
+  rawDelete_partial H hlen t hc k st hst fuel hf
+
+theorem raw_set_missing_on_path (H : Bytes → Bytes) (hlen : ∀ b, (H b).length = 32) (t : Node) (hc : Canon t) (k : Path) (v : Bytes)
+    (st : HexRaw.St) (hst : PartialD H st.db t) (fuel : Nat) (hf : 2 * k.length + 2 ≤ fuel) (h : Hash)
+    (he : rawSet H fuel st (toItem H t) k v = .error (.missing h)) :
+    lookup st.db h = none ∧ OnPath (stdHashing H) t k h :=
+  rawSet_missing_on_path H hlen t hc k v st hst fuel hf h he
+
+theorem raw_delete_missing_on_path (H : Bytes → Bytes) (hlen : ∀ b, (H b).length = 32) (t : Node) (hc : Canon t) (k : Path)
+    (st : HexRaw.St) (hst : PartialD H st.db t) (fuel : Nat) (hf : 2 * k.length + 2 ≤ fuel) (h : Hash)
+    (he : rawDelete H fuel st (toItem H t) k = .error (.missing h)) :
+    lookup st.db h = none ∧ (OnPath (stdHashing H) t k h ∨ SiblingOnPath (stdHashing H) t k h) :=
+  rawDelete_missing_on_path H hlen t hc k st hst fuel hf h he
 
 end PyTrie.Props.C07
